@@ -62,10 +62,19 @@ def _rgb_state(rnd):
     return {"_pins": ["<any>", "<any>", "<any>"], "_color": col, "_state": any(c > 0 for c in col)}
 
 
+# speeds of the motor include magnitudes far below any tolerance: "drive exactly when the applied speed is non-zero" has no dead band
+_TINY = [{"real": t} for t in ("1/1000000000000", "-1/1000000000000", "1/1048576", "-1/1073741824", "0", "1/2", "-1/4", "1", "-1", "3/2", "-3")]
+
+
 def native_samples(reg, rnd, n):
-    return sampler.jobs_for(reg, rnd, n, state_samplers={"Servo": _servo_state, "DCMotor": _dc_state,
+    jobs = sampler.jobs_for(reg, rnd, n, state_samplers={"Servo": _servo_state, "DCMotor": _dc_state,
                                                          "Led": _led_state, "RGBLed": _rgb_state},
                             skip=("RGBLed._update_state",))
+    extra = sampler.jobs_for(reg, rnd, max(2, n // 2), state_samplers={"DCMotor": _dc_state}, skip=tuple(q for (_f, q) in reg.contracts if not q.startswith("DCMotor.")),
+                             pools={q: {p: _TINY for p in ("value", "speed", "target_speed")} for (_f, q) in reg.contracts if q.startswith("DCMotor.")})
+    for k, j in enumerate(extra):
+        j["id"] = f"t{k}"
+    return jobs + extra
 LED = "Reduino/Actuators/Led.py"
 RGB = "Reduino/Actuators/RGBLed.py"
 SERVO = "Reduino/Actuators/Servo.py"
